@@ -25,14 +25,17 @@ import segwalk
 # timing reference; syn5 fragments numbered from 0, power-of-two loop; syn7 NTSC 30000/1001; syn8 two
 # segments (the minimum); syn9 stored stream defaults, one very long and one short interior segment.
 # (syn6 – first decode time != 0 – is outside the proved hypotheses: ledger D25.)
-STREAMS = ("bbb", "tears", "syn1", "syn2", "syn3", "syn4", "syn5", "syn7", "syn8", "syn9")
+# c12t1 / c12t2 (registered by ensure_streams below): timing references that do not last a whole number of
+# seconds AND end with a segment shorter than that fractional second (8.8 s = 4 + 4 + 0.8; 4.5 s = 0.3 + 2 + 2
+# + 0.2, also a short FIRST segment) – the tail of the media lies after floor(duration in seconds)
+STREAMS = ("bbb", "tears", "syn1", "syn2", "syn3", "syn4", "syn5", "syn7", "syn8", "syn9", "c12t1", "c12t2")
 # track ids each stream offers (content type by track id); video (1) is always needed:
 # create_period() asserts a video adaptation set
 TRACKS = {
     "bbb": {1: "video", 2: "audio", 3: "audio", 4: "text"},
     "tears": {1: "video", 2: "audio"},
 }
-for _s in ("syn1", "syn2", "syn3", "syn4", "syn5", "syn6", "syn7", "syn8", "syn9"):
+for _s in ("syn1", "syn2", "syn3", "syn4", "syn5", "syn6", "syn7", "syn8", "syn9", "c12t1", "c12t2"):
     TRACKS[_s] = {1: "video", 2: "audio"}
 _counter = itertools.count(1)
 UTC = datetime.timezone.utc
@@ -71,6 +74,29 @@ class Defn:
     def total_us(self):
         """total *presentation* duration (what the builders tile the timeline with)"""
         return sum(quantise(p.duration_us) for p in self.periods)
+
+
+_OWN_STREAMS = False
+
+
+def ensure_streams(app: appboot.App):
+    """the C12-only synthetic streams (fractional-second reference with a short last / first segment)"""
+    global _OWN_STREAMS
+    if _OWN_STREAMS:
+        return
+    import mp4synth
+    v = mp4synth.make_track("video", 240, [960, 960, 192], samples_per_segment=[4, 4, 2], seed=1201, track_id=1)
+    a = mp4synth.make_track("audio", 48000, [192512, 191488, 38400], samples_per_segment=[188, 187, 50],
+                            seed=1202, track_id=2, sample_durations_in="trun")
+    mp4synth.register(app, "c12t1", "C12 8.8 s, last segment 0.8 s", {"c12t1_v1": v, "c12t1_a1": a},
+                      timing_from="c12t1_v1")
+    v = mp4synth.make_track("video", 1000, [300, 2000, 2000, 200], samples_per_segment=[3, 4, 4, 2], seed=1203,
+                            track_id=1)
+    a = mp4synth.make_track("audio", 44100, [13230, 88200, 88200, 8820], samples_per_segment=[15, 90, 90, 10],
+                            seed=1204, track_id=2, sample_durations_in="trun")
+    mp4synth.register(app, "c12t2", "C12 4.5 s, first 0.3 s, last 0.2 s", {"c12t2_v1": v, "c12t2_a1": a},
+                      timing_from="c12t2_v1")
+    _OWN_STREAMS = True
 
 
 def quantise(us: int) -> int:
